@@ -151,7 +151,7 @@ void genFiles(Prng& r, Plan& p, int tier)
 		case 2: p.ops.push_back(op("wr", {path, (int64_t)r.below(2), (int64_t)(1 + r.below(4)), len, (int64_t)(r.next() >> 20), (int64_t)r.below(2)})); break;
 		case 3: p.ops.push_back(op("stream", {path, (int64_t)(r.next() >> 20)})); break;
 		case 4: case 5: p.ops.push_back(op("tput", {path, (int64_t)(1 + r.below(6)), (int64_t)(r.below(4) == 0 ? 2000 : 600), (int64_t)r.below(4), (int64_t)r.below(2), (int64_t)(r.next() >> 20)})); break;
-		case 6: p.ops.push_back(op("tapp", {path, (int64_t)(1 + r.below(3)), 300, (int64_t)r.below(4), (int64_t)(r.next() >> 20), (int64_t)r.below(2)})); break;
+		case 6: p.ops.push_back(op("tapp", {path, (int64_t)(1 + r.below(3)), (int64_t)(r.below(4) == 0 ? 3000 : 300), (int64_t)r.below(4), (int64_t)(r.next() >> 20), (int64_t)r.below(2)})); break;
 		case 7: p.ops.push_back(op("tprintf", {path, (int64_t)(1 + r.below(5)), (int64_t)(r.next() >> 20)})); break;
 		case 8: p.ops.push_back(op("copy", {path, (int64_t)r.below(NPATH), (int64_t)r.below(2)})); break;
 		case 9: p.ops.push_back(op("move", {path, (int64_t)r.below(NPATH), (int64_t)r.below(2)})); break;
